@@ -65,8 +65,33 @@ func (e *Engine) newCtx(key string) *FuncCtx {
 		return true
 	})
 	// an "at call" clause that matches no call site would silently assert nothing
+	c.atLit = map[*Clause]*ast.CallExpr{}
 	if c.contract != nil {
 		for _, cl := range c.contract.Clauses {
+			if cl.Kind == "at" && cl.HasLit {
+				var hits []*ast.CallExpr
+				ast.Inspect(fd.Body, func(x ast.Node) bool {
+					ce, ok := x.(*ast.CallExpr)
+					if !ok || e.calleeKeyOf(ce) != cl.Name {
+						return true
+					}
+					for _, a := range ce.Args {
+						if bl, ok := ast.Unparen(a).(*ast.BasicLit); ok && bl.Kind == token.STRING {
+							if sv, err := strconv.Unquote(bl.Value); err == nil && sv == cl.Lit {
+								hits = append(hits, ce)
+								break
+							}
+						}
+					}
+					return true
+				})
+				if len(hits) != 1 {
+					c.limit = fmt.Sprintf("'at call %s %q' matches %d call sites (exactly one expected)", cl.Name, cl.Lit, len(hits))
+				} else {
+					c.atLit[cl] = hits[0]
+				}
+				continue
+			}
 			if cl.Kind == "at" && counts[cl.Name] < cl.Loop {
 				c.limit = fmt.Sprintf("'at call %s #%d' matches no call site (the function has %d such calls)", cl.Name, cl.Loop, counts[cl.Name])
 			}
@@ -529,7 +554,7 @@ func (c *FuncCtx) atCall(st *State, x *ast.CallExpr) {
 	key := c.eng.calleeKeyOf(x)
 	nth := 0
 	for _, cl := range c.contract.Clauses {
-		if cl.Kind == "at" && cl.Name == key && cl.Loop == n {
+		if cl.Kind == "at" && cl.Name == key && ((!cl.HasLit && cl.Loop == n) || (cl.HasLit && c.atLit[cl] == x)) {
 			nth++
 			c.inAtCall = true
 			v := c.evalSpecAt(st, cl.Expr, x.Pos(), c.ghostEnv())
